@@ -23,7 +23,9 @@ RULE = (
     "80..400 F, both dryness settings) and maximum pressure 10.5 (a one-row table) ..3000 psia in quick, ..14000 in thorough (multiples of "
     "10 and not); every row is recomputed with the stand-alone correlations. 'sutton': reductions of the "
     "pseudocritical point (no contaminants, zero-fraction extra component, unknown dryness). Non-trivial = a "
-    "fluid case with >= 2 pressures, a table with >= 3 rows, or any sutton case. Distinct = hash of the case record."
+    "fluid case with >= 2 pressures, a table with >= 3 rows, or any sutton case. The table's maximum pressure is handed over "
+    "as float, Python / numpy int (whole numbers) or by keyword, and one table in four has a reservoir temperature with a "
+    "fractional part; oil parameters also come as numpy float64 scalars. Distinct = hash of the case record."
 )
 ASSUMPTIONS = [
     "tolerance 1e-13 relative for delegation (same arithmetic), 1e-12 for table rows and the cumulative trapezoid",
@@ -65,8 +67,11 @@ def fluid_case(draw):
 def table_case(draw, tier):
     comp = draw(gens.gas_composition())
     hi = 3000.0 if tier == "quick" else 14000.0
-    pmax = draw(st.one_of(st.integers(3, int(hi // 10)).map(lambda k: 10.0 * k), st.floats(25.0, hi), st.sampled_from([10.5, 15.0, 20.0, 20.000001, 30.0, 1000.0])))
-    return {"kind": "table", "comp": comp, "pmax": pmax, "container": draw(st.sampled_from(["dict", "series", "series-other-order", "dataframe-row", "dict-other-order", "dict-int-values"]))}
+    pmax = draw(st.one_of(st.integers(3, int(hi // 10)).map(lambda k: 10.0 * k), st.floats(25.0, hi), st.integers(25, int(hi)).map(float), st.sampled_from([10.5, 15.0, 20.0, 20.000001, 30.0, 1000.0])))
+    if draw(st.integers(0, 3)) == 0:
+        # a reservoir temperature with a fractional part however the composition was drawn (unit conversions give such)
+        comp = dict(comp, T=math.floor(comp["T"]) + draw(st.sampled_from([0.5, 0.21375, 0.9, 0.75])))
+    return {"kind": "table", "comp": comp, "pmax": pmax, "pmax_form": draw(forms.pmax_form()), "container": draw(st.sampled_from(["dict", "series", "series-other-order", "dataframe-row", "dict-other-order", "dict-int-values"]))}
 
 
 @st.composite
@@ -121,7 +126,7 @@ def check_case(case) -> Result:
     res.labels["kind"] = kind
     if kind == "fluid":
         o = case["oil"]
-        T, api, sg, gor, sal = o["T"], o["api"], o["sg"], o["gor"], case["salinity"]
+        T, api, sg, gor, sal = (*gens.oil_tuple(o), case["salinity"])
         tpc, ppc = case["tpc"], case["ppc"]
         if case.get("low_gor") is not None:
             gor = case["low_gor"]
@@ -189,7 +194,7 @@ def check_case(case) -> Result:
         if case.get("oil2") and not res.violations:
             # reassign the object's fields (after every method has been evaluated once) and compare again
             o2 = case["oil2"]
-            T2, api2, sg2, gor2, sal2 = o2["T"], o2["api"], o2["sg"], o2["gor"], case["salinity2"]
+            T2, api2, sg2, gor2, sal2 = (*gens.oil_tuple(o2), case["salinity2"])
             fl.temperature, fl.api_gravity, fl.gas_specific_gravity, fl.solution_gor_initial, fl.salinity = T2, api2, sg2, gor2, sal2
             pb2 = float(lib("pressure_bubblepoint_Standing", O.pressure_bubblepoint_Standing, T2, api2, sg2, gor2))
             _close(res, "C19/fluid-follows-reassigned-fields", float(lib("Fluid.pressure_bubblepoint", fl.pressure_bubblepoint)), pb2, 1e-13, "pressure_bubblepoint after the fields were reassigned")
@@ -283,7 +288,9 @@ def check_case(case) -> Result:
         gv_in = {k: gv[k] for k in other}
     elif case["container"] == "dict-int-values" and float(comp["T"]).is_integer():
         gv_in = {**gv, "Reservoir Temperature (deg F)": int(comp["T"])}
-    df = lib("build_pvt_gas", build_pvt_gas, gv_in, comp["dryness"], pmax)
+    # the maximum pressure as float / Python int / numpy int, positionally or by keyword: the grid and every row are the same
+    df = lib("build_pvt_gas", forms.call_with_pmax, build_pvt_gas, gv_in, comp["dryness"], pmax, case.get("pmax_form", "float"))
+    res.labels["pmax_form"] = case.get("pmax_form", "float") + ("" if float(pmax).is_integer() else " (not whole: float)")
     want_p = np.arange(10.0, pmax, 10.0)
     need = ["temperature", "pressure", "Density", "z-factor", "compressibility", "viscosity", "pseudopressure"]
     missing = [c for c in need if c not in df]
